@@ -222,6 +222,11 @@ def finish(ctx, level, coverage, assumptions=None):
     seen_known = {}
     for key, what, replay in ctx.violations:
         if key in open_keys:
+            if key not in seen_known and os.environ.get("VERIF_SAVE_FINDINGS"):
+                # maintenance aid: (re)write the witness of a listed finding; never adds to known_findings.json
+                wp = os.path.join(VERIF, open_keys[key].get("witness") or "findings/%s_%s.json" % (ctx.pid, hashlib.sha1(key.encode()).hexdigest()[:8]))
+                os.makedirs(os.path.dirname(wp), exist_ok=True)
+                json.dump(dict(property=ctx.pid, key=key, what=what, replay=replay), open(wp, "w"), indent=1, default=str)
             seen_known.setdefault(key, what)
         else:
             new.append((key, what, replay))
